@@ -100,6 +100,35 @@ type Accent struct {
 
 var extraNamed = []reflect.Type{reflect.TypeOf(EmbInt{}), reflect.TypeOf(Outer{}), reflect.TypeOf(Accent{})}
 
+// Types that implement the encoding hooks (value and pointer receivers).
+type JM struct{ V int }
+
+func (j JM) MarshalJSON() ([]byte, error) { return []byte(fmt.Sprintf(`{"jm":%d}`, j.V)), nil }
+
+type TM struct{ V int }
+
+func (t TM) MarshalText() ([]byte, error) { return []byte(fmt.Sprintf("tm-%d", t.V)), nil }
+
+type SM struct{ V int }
+
+func (s SM) Simplify() any { return map[string]any{"sm": int64(s.V)} }
+
+type PJM struct{ V int }
+
+func (j *PJM) MarshalJSON() ([]byte, error) { return []byte(fmt.Sprintf(`{"pjm":%d}`, j.V)), nil }
+
+type HookHolder struct {
+	HookJ  JM
+	HookT  TM
+	HookS  SM
+	HookPJ PJM
+	HookPP *PJM
+	HookOJ JM `json:"oj,omitempty"`
+	HookPT *TM
+	HookI  any
+	HookN  int
+}
+
 var embeddable = []reflect.Type{
 	reflect.TypeOf(EmbA{}), reflect.TypeOf(EmbB{}), reflect.TypeOf(EmbC{}), reflect.TypeOf(EmbD{}), reflect.TypeOf(EmbE{}), reflect.TypeOf(EmbF{}), reflect.TypeOf(Deep{}),
 }
